@@ -17,6 +17,7 @@ import pymbolic.mapper.constant_folder as foldmod
 
 from ..core import check, short
 from ..gen import expr as G
+from ..mon import streams
 from ..mon.trace import HandlerTrace
 from ..ref import normal, ratfun, refsem
 from .c03 import Mat2
@@ -277,6 +278,69 @@ def c_context(ctx, case):
                 break
 
 
+def stream_rows(seed, n, shape):
+    import random
+    r = random.Random(seed)
+    x, y = V[0], V[1]
+    tg = G.TypedGen(r, int_kinds=["cse", "cse", "sum", "prod", "if", "min", "pow", "neg"])
+    for i in range(n):
+        tg.pool = {"int": [], "num": [], "bool": []}
+        k = r.random()
+        if shape == "product":      # (expand refuses a bare wrapper as a summand)
+            yield p.Sum((y, p.Product((y, p.CommonSubexpression(p.Product((i, x, 3)))))))
+        elif k < 0.4:
+            yield p.Sum((y, p.CommonSubexpression(p.Sum((i, x, 1)))))
+        elif k < 0.6:
+            yield p.Product((2, p.CommonSubexpression(p.Product((i, x, 3)), "s"), 3))
+        else:
+            e = tg.int(r.randint(1, 3))
+            yield p.Sum((e, 1, p.CommonSubexpression(p.Sum((1, x, i))), 2))
+
+
+@check("C11.stream")
+def c_stream(ctx, case):
+    """ONE rewrite object over a stream of temporaries holding common subexpressions (each row
+    dropped before the next is built): every rewritten row keeps its row's value."""
+    seed, n, which = case
+    mk, shape = {"fold": (ConstantFoldingMapper, "any"),
+                 "commutative-fold": (CommutativeConstantFoldingMapper, "any"),
+                 "flatten": (FlattenMapper, "any"),
+                 "commutative-fold-products": (CommutativeConstantFoldingMapper, "product"),
+                 "distribute": (DistributeMapper, "product")}[which]
+    m = mk()
+    rng = ctx.sub_rng("env", seed)
+    box = [-2, -1, 1, 2, 3, F(7, 3), F(-5, 2)]
+    envs = [G.base_env(rng.choice(box), rng.choice(box), rng.choice(box), s=1, t=True)
+            for _ in range(2)]
+
+    def judge(i, e):
+        if faulty_constant_subtree(e):
+            return
+        ctx.case(None)
+        ctx.count("stream:rewrites")
+        try:
+            out = m(e)
+        except RecursionError:
+            raise
+        except Exception as ex:  # noqa: BLE001
+            ctx.fail("C11.stream", case, f"{which}:raised:{type(ex).__name__}",
+                     f"row {i}: one {which} object on {G.src(e)} raised {type(ex).__name__}: {ex}")
+            return
+        for env in envs:
+            want, faults, _ = refsem.expected(e, env)
+            if want[0] != "v":
+                continue
+            ctx.count("stream:values")
+            got = refsem.outcome(lambda: refsem.ev(out, env))
+            if not refsem.consistent(got, want, faults):
+                ctx.fail("C11.stream", case, f"{which}:value",
+                         f"row {i} of a stream of temporaries through one {which} object: "
+                         f"{e} became {out}; x={env['x']} y={env['y']} z={env['z']}: "
+                         f"{short(got)} vs {short(want)}")
+                return
+    streams.each(ctx, stream_rows(seed, n, shape), judge)
+
+
 @check("C11.collect")
 def c_collect(ctx, case):
     e, params = case
@@ -438,7 +502,10 @@ def workload(ctx):
                         pre = DistributeMapper(lambda t: t)(fl)
                     except Exception:  # noqa: BLE001
                         pre = None
-                    if isinstance(pre, p.Sum) and not any(isinstance(x, float) for x in G.walk(pre)):
+                    if isinstance(pre, p.Sum) and len(pre.children) <= 250 \
+                            and not any(isinstance(x, float) for x in G.walk(pre)):
+                        # (the collector is quadratic in the number of terms; thousands of
+                        # terms are a cost, not a correctness, matter)
                         ctx.run("C11.collect", (pre, rng.choice([frozenset(), frozenset([V[0]])])))
         # direct term-collector inputs: sums of fully expanded multiplicative terms
         for i in range(ctx.per_shard(ctx.pick(1500, 30000))):
@@ -480,6 +547,11 @@ def workload(ctx):
             elif isinstance(e, p.Power):
                 e2 = p.Product(tuple(e.base for _ in range(e.exponent)))
                 ctx.run("C11.expandpair", (e, e2))
+        for i in range(ctx.per_shard(ctx.pick(40, 600))):
+            ctx.case(("stream", i), True, n=0)
+            ctx.run("C11.stream", (rng.getrandbits(32), rng.randint(20, 100),
+                                   ["fold", "commutative-fold", "flatten", "distribute",
+                                    "commutative-fold-products"][i % 5]))
         # contexts: every evaluable node type around sums/products
         tg = G.TypedGen(rng, hist=ctx.hist)
         for i in range(ctx.per_shard(ctx.pick(1500, 30000))):
@@ -495,6 +567,9 @@ def workload(ctx):
         for k, v in tr.handlers().items():
             ctx.count("handler:" + k, v)
         ctx.count("handler:TermCollector.split_term", tr.counts.get("TermCollector.split_term", 0))
+    ctx.floor("stream:rows", 500)
+    ctx.floor("stream:values", 500)
+    ctx.floor("stream:row_address_reused", 100)
     ctx.floor("flatten_calls", 1500)
     ctx.floor("fold_calls", 1500)
     ctx.floor("commutative-fold_calls", 1500)
